@@ -33,6 +33,20 @@
 (* Evaluation) and the order in which Scheduler._exec_job /                 *)
 (* _done_job_main_thread / _resolve_job_main_thread call the backend.       *)
 (*                                                                         *)
+(* Second workload variant (state field `noprov`, CONSTANT Variants): the   *)
+(* child is declared prov=False, which the grandchild inherits.  Jobs       *)
+(* without provenance never look anything up (cache_scope NONE), always     *)
+(* execute and record nothing: no rjs / sec / rv / rcn / rje; their call     *)
+(* hashes are computed in memory only.  When the parent's node is recorded   *)
+(* its child node is therefore NOT in the CallNode table and                *)
+(* record_call_node takes its other path: after the Argument commit it      *)
+(* calls record_value(task) for EVERY subtree task (each a nested frame     *)
+(* with its own db_retry and its own Value / Task commits of the shared     *)
+(* session), and only then stages all CallSubtreeTask rows and commits      *)
+(* them in ONE commit -- so the rows of a node appear atomically.  The      *)
+(* subtree tasks are a Python set: the iteration order is a nondeterministic *)
+(* choice (`pick`).                                                         *)
+(*                                                                         *)
 (* Environment: one injection per behaviour in run 1 (OperationalError at a *)
 (* flush or commit point -> db_retry: rollback, re-enter the innermost      *)
 (* frame from the top; or process death before / after a commit), then      *)
@@ -71,7 +85,9 @@ EXTENDS Naturals, Integers, Sequences, FiniteSets, TLC
 
 CONSTANTS FixSubtree, FixCompanion, FixPop, FixNodeExit, FixNested,  \* BOOLEAN repair switches
           MaxRuns,     \* runs per behaviour (1 recording run + recovery runs)
-          NPoints,     \* flush + commit points of the fault-free recording run (31)
+          NPoints,     \* flush + commit points of the fault-free recording run (31), chain workload
+          NPointsNP,   \* the same for the prov=False variant (15)
+          Variants,    \* subset of BOOLEAN: FALSE = chain workload, TRUE = child/grandchild prov=False
           WithImport   \* BOOLEAN: Import action enabled
 
 Lvl == 1..3
@@ -124,7 +140,7 @@ FKClosed(db) == ~FKViol(db, db)
 (***************************************************************************)
 NoJob == [th |-> "", arg |-> "", hit |-> "", res |-> "", call |-> <<>>, sub |-> {}, tsj |-> {}]
 A0 == [v |-> "", th |-> "", arg |-> "", jid |-> "", ex |-> 0, root |-> FALSE, node |-> <<>>,
-       kid |-> <<>>, sub |-> {}]
+       kid |-> <<>>, sub |-> {}, todo |-> {}]
 Frame(op, a) == [op |-> op, pc |-> 0, a |-> a]
 NoPt == [k |-> "", op |-> "", tabs |-> {}]
 NoInj == [kind |-> "none", at |-> 0, site |-> ""]
@@ -136,7 +152,7 @@ State0(db, nseq, reg, inj, tsub) ==
   [db |-> db, nseq |-> nseq, pn |-> EmptyT, fl |-> EmptyT, mem |-> {}, reg |-> reg,
    stack |-> <<>>, run |-> IdleRun, outs |-> <<>>, inj |-> inj, injrun |-> 1, np |-> 0,
    injected |-> FALSE, devs |-> {}, tsub |-> tsub, badhit |-> FALSE, lastpt |-> NoPt,
-   hist |-> <<>>, edits |-> 0, imported |-> FALSE, ffdb |-> EmptyT]
+   hist |-> <<>>, edits |-> 0, imported |-> FALSE, ffdb |-> EmptyT, noprov |-> FALSE]
 
 Vis(S) == TUnion(TUnion(S.db, S.fl), S.pn)
 Staged(S) == TUnion(S.fl, S.pn)
@@ -249,7 +265,10 @@ StepSec(S, f, enforce) ==
 
 SubRows(node, sub) == {<<node, t>> : t \in sub}
 
-StepRcn(S, f, enforce) ==
+\* "some child call nodes were not recorded" (recorded_child_hashes < set(child_call_hashes))
+Unrec(a, vis) == a.kid # <<>> /\ a.kid \notin vis.Node
+
+StepRcn(S, f, enforce, pick) ==
   LET a == f.a vis == Vis(S) IN
   CASE f.pc = 0 ->
          IF a.node \in vis.Node
@@ -270,7 +289,15 @@ StepRcn(S, f, enforce) ==
     [] f.pc = 4 -> CommitPoint(S, 5, enforce)
     [] f.pc = 7 ->  \* the Argument row exists (left dangling by an earlier run): UNIQUE fails in the flush
          Abort(Dev(Pt(S, "commit", TabsOf(Staged(S)) \cup {"Arg"}), "DuplicateArgument"), "IntegrityError")
-    [] f.pc = 5 -> SetPc(Stage(S, "Sub", SubRows(a.node, a.sub) \ vis.Sub), 6)
+    [] f.pc = 5 ->
+         \* children without provenance: their tasks may not be recorded either -> record_value(task)
+         \* for every subtree task first (pc 8), the rows afterwards
+         IF Unrec(a, vis) THEN SetPc([S EXCEPT !.stack[Len(S.stack)].a.todo = a.sub], 8)
+         ELSE SetPc(Stage(S, "Sub", SubRows(a.node, a.sub) \ vis.Sub), 6)
+    [] f.pc = 8 ->
+         IF a.todo = {} THEN SetPc(Stage(S, "Sub", SubRows(a.node, a.sub) \ vis.Sub), 6)
+         ELSE LET t == IF pick \in a.todo THEN pick ELSE CHOOSE x \in a.todo : TRUE IN
+              Push([S EXCEPT !.stack[Len(S.stack)].a.todo = @ \ {t}], Frame("rv", [A0 EXCEPT !.v = t]))
     [] OTHER -> CommitPoint(S, -1, enforce)
 
 StepRje(S, f, enforce) ==
@@ -278,12 +305,12 @@ StepRje(S, f, enforce) ==
   CASE f.pc = 0 -> SetPc(Stage(S, "JobEnd", {<<a.jid, a.node>>}), 1)
     [] OTHER -> CommitPoint(S, -1, enforce)
 
-FrameStep(S, enforce) ==
+FrameStep(S, enforce, pick) ==
   LET f == Top(S) IN
   CASE f.op = "rv" -> StepRv(S, f, enforce)
     [] f.op = "rjs" -> StepRjs(S, f, enforce)
     [] f.op = "sec" -> StepSec(S, f, enforce)
-    [] f.op = "rcn" -> StepRcn(S, f, enforce)
+    [] f.op = "rcn" -> StepRcn(S, f, enforce, pick)
     [] OTHER -> StepRje(S, f, enforce)
 
 (***************************************************************************)
@@ -305,9 +332,14 @@ GetCallNode(S, th, arg) ==
 (***************************************************************************)
 JobId(S, l) == (CASE S.run.no = 1 -> "1" [] S.run.no = 2 -> "2" [] S.run.no = 3 -> "3" [] OTHER -> "4") \o TaskAt[l]
 
+\* the job at level l runs without provenance (prov=False on the child, inherited below)
+Quiet(S, l) == S.noprov /\ l >= 2
+
 SchedStep(S) ==
   LET r == S.run  l == r.lvl  j == r.jobs[l]  th == TH(l, S.reg[l]) IN
-  CASE r.ph = "lookup" ->
+  CASE r.ph = "lookup" /\ Quiet(S, l) ->      \* cache_scope NONE: no lookup, no record_job_start
+         [S EXCEPT !.run.jobs[l] = [j EXCEPT !.th = th, !.hit = "miss"], !.run.ph = "started"]
+    [] r.ph = "lookup" /\ ~Quiet(S, l) ->
          LET ult == IF l = 1 THEN GetCallNode(S, th, j.arg) ELSE <<>>
              ultok == ult # <<>> /\ ult[3] \in S.db.Value
              single == {e \in S.db.Eval : e[1] = th /\ e[2] = j.arg /\ e[3] \in S.db.Value}
@@ -323,9 +355,10 @@ SchedStep(S) ==
               Frame("rjs", [A0 EXCEPT !.jid = JobId(S, l), !.th = th, !.ex = r.no, !.root = (l = 1)]))
     [] r.ph = "started" ->
          IF j.hit = "miss"
-         THEN LET res == Body(l, S.reg[l], j.arg) IN
-              Push([S EXCEPT !.run.jobs[l].res = res, !.run.exe = @ \cup {TaskAt[l]}, !.run.ph = "descend"],
-                   Frame("sec", [A0 EXCEPT !.th = th, !.arg = j.arg, !.v = res]))
+         THEN LET res == Body(l, S.reg[l], j.arg)
+                  S1 == [S EXCEPT !.run.jobs[l].res = res, !.run.exe = @ \cup {TaskAt[l]}, !.run.ph = "descend"]
+              IN IF Quiet(S, l) THEN S1      \* nothing is cached
+                 ELSE Push(S1, Frame("sec", [A0 EXCEPT !.th = th, !.arg = j.arg, !.v = res]))
          ELSE IF j.hit = "single" THEN [S EXCEPT !.run.ph = "descend"]
          ELSE [S EXCEPT !.run.fin = j.res, !.run.ph = "ascend"]
     [] r.ph = "descend" ->
@@ -333,7 +366,16 @@ SchedStep(S) ==
          THEN [S EXCEPT !.run.lvl = l + 1, !.run.deep = l + 1, !.run.ph = "lookup",
                         !.run.jobs[l + 1] = [NoJob EXCEPT !.arg = ExprArg(j.res)]]
          ELSE [S EXCEPT !.run.fin = j.res, !.run.ph = "ascend"]
-    [] r.ph = "ascend" ->
+    [] r.ph = "ascend" /\ Quiet(S, l) ->
+         \* the call hash is computed in memory (hash_call_node), nothing is recorded
+         LET haskid == l < r.deep
+             kid == IF haskid THEN r.jobs[l + 1].call ELSE <<>>
+             node == <<th, j.arg, r.fin>> \o kid
+         IN [S EXCEPT !.run.jobs[l].call = node,
+                      !.run.jobs[l].sub = {th} \cup (IF haskid THEN r.jobs[l + 1].sub ELSE {}),
+                      !.run.jobs[l].tsj = {th} \cup (IF haskid THEN r.jobs[l + 1].tsj ELSE {}),
+                      !.run.lvl = l - 1, !.run.ph = "ascend"]
+    [] r.ph = "ascend" /\ ~Quiet(S, l) ->
          IF j.hit = "ultimate"
          THEN [S EXCEPT !.run.jobs[l].sub = RecSub(S.db, j.call) \cap RegHashes(S.reg),
                         !.run.jobs[l].tsj = TrueSub(S, j.call), !.run.ph = "end"]
@@ -355,7 +397,10 @@ SchedStep(S) ==
          ELSE [S EXCEPT !.run.lvl = l - 1, !.run.ph = "ascend"]
 
 Running(S) == S.run.ph # "idle"
-Step(S, enforce) == IF S.stack # <<>> THEN FrameStep(S, enforce) ELSE SchedStep(S)
+Step(S, enforce, pick) == IF S.stack # <<>> THEN FrameStep(S, enforce, pick) ELSE SchedStep(S)
+\* the nondeterministic choices of a step: the next subtree task of the record_value(task) loop
+Choices(S) == IF S.stack # <<>> /\ Top(S).op = "rcn" /\ Top(S).pc = 8 /\ Top(S).a.todo # {}
+              THEN Top(S).a.todo ELSE {""}
 
 (***************************************************************************)
 (* Environment between runs                                                *)
@@ -380,18 +425,23 @@ Import(S) == [S EXCEPT !.db = Imported(S.db), !.imported = TRUE, !.hist = Append
 (***************************************************************************)
 VARIABLE s
 
-InjPlans == {NoInj}
-            \cup {[kind |-> "fault", at |-> k, site |-> ""] : k \in 1..NPoints}
-            \cup {[kind |-> "crash", at |-> k, site |-> w] : k \in 1..NPoints, w \in {"before", "after"}}
+PointsOf(np) == IF np THEN NPointsNP ELSE NPoints
+InjPlans(np) == {NoInj}
+            \cup {[kind |-> "fault", at |-> k, site |-> ""] : k \in 1..PointsOf(np)}
+            \cup {[kind |-> "crash", at |-> k, site |-> w] : k \in 1..PointsOf(np), w \in {"before", "after"}}
 
 RECURSIVE RunToEnd(_, _)
-RunToEnd(S, fuel) == IF ~Running(S) \/ fuel = 0 THEN S ELSE RunToEnd(Step(S, TRUE), fuel - 1)
-FaultFreeDb == RunToEnd(StartRun(State0(EmptyT, <<>>, <<1, 1, 1>>, NoInj, {}), 0), 400).db
+RunToEnd(S, fuel) == IF ~Running(S) \/ fuel = 0 THEN S
+                     ELSE RunToEnd(Step(S, TRUE, CHOOSE p \in Choices(S) : TRUE), fuel - 1)
+Start0(np, inj) == StartRun([State0(EmptyT, <<>>, <<1, 1, 1>>, inj, {}) EXCEPT !.noprov = np], 0)
+\* what the fault-free recording run leaves behind (the same for every order of the subtree tasks)
+FaultFreeEnd(np) == RunToEnd(Start0(np, NoInj), 400)
+FaultFreeDb(np) == FaultFreeEnd(np).db
 
-Init == \E inj \in InjPlans :
-          s = [StartRun(State0(EmptyT, <<>>, <<1, 1, 1>>, inj, {}), 0) EXCEPT !.ffdb = FaultFreeDb]
+Init == \E np \in Variants : \E inj \in InjPlans(np) :
+          s = [Start0(np, inj) EXCEPT !.ffdb = FaultFreeDb(np)]
 
-RunStep == Running(s) /\ \E enforce \in BOOLEAN : s' = Step(s, enforce)
+RunStep == Running(s) /\ \E enforce \in BOOLEAN, pick \in Choices(s) : s' = Step(s, enforce, pick)
 \* a crash injection planned for a flush point never fires (crashes happen at commits): prune
 NextRun == /\ ~Running(s) /\ Len(s.outs) < MaxRuns
            \* one edit, or an edit followed by its revert (registry history v1, v2, v1: an older current
@@ -407,7 +457,7 @@ Spec == Init /\ [][Next]_s
 (***************************************************************************)
 (* Properties                                                              *)
 (***************************************************************************)
-TypeOK == /\ s.np <= NPoints + 6 /\ Len(s.stack) <= 3
+TypeOK == /\ s.np <= PointsOf(s.noprov) + 6 /\ Len(s.stack) <= 3
           /\ Len(s.nseq) = Cardinality(s.db.Node) /\ \A i \in 1..Len(s.nseq) : s.nseq[i] \in s.db.Node
           /\ s.db.Task \subseteq TaskHashes
 
